@@ -87,6 +87,18 @@ class W:
         except Exception as e:  # noqa: BLE001
             return [-1, CODE_OF_ERR.get(exc_name(g, e), 999)]
 
+    def _form(self, objs, allow_set=False):
+        """The iterable handed to a bulk operation: the API accepts any iterable, so lists, tuples, one-shot generators and
+        iterators (and sets where multiplicity is irrelevant) take turns, deterministically per executor."""
+        self._nform = getattr(self, "_nform", 0) + 1
+        k = (self._nform * 7 + len(objs)) % (6 if allow_set else 5)
+        self.forms = getattr(self, "forms", {})
+        name = ["list", "gen", "tuple", "iter", "list", "set"][k]
+        self.forms[name] = self.forms.get(name, 0) + 1
+        objs = list(objs)
+        return (objs if name == "list" else (x for x in objs) if name == "gen" else tuple(objs) if name == "tuple"
+                else iter(objs) if name == "iter" else set(objs))
+
     def _run(self, it):
         g, c = self.g, it[0]
         O = self.obj
@@ -119,16 +131,17 @@ class W:
             kind = KINDS[k]
             uu = uuidlib.UUID(int=u)
             objs = [O[x] for x in kids]
+            F = self._form
             if kind == "IR":
-                o = g.IR(uuid=uu, modules=objs)
+                o = g.IR(uuid=uu, modules=F(objs))
             elif kind == "Module":
                 o = g.Module(name="m%d" % n, uuid=uu,
-                             sections=[x for x in objs if isinstance(x, g.Section)], symbols=[x for x in objs if isinstance(x, g.Symbol)],
-                             proxies=[x for x in objs if isinstance(x, g.ProxyBlock)])
+                             sections=F([x for x in objs if isinstance(x, g.Section)]), symbols=F([x for x in objs if isinstance(x, g.Symbol)]),
+                             proxies=F([x for x in objs if isinstance(x, g.ProxyBlock)]))
             elif kind == "Section":
-                o = g.Section(name="s%d" % n, uuid=uu, byte_intervals=objs)
+                o = g.Section(name="s%d" % n, uuid=uu, byte_intervals=F(objs))
             else:
-                o = g.ByteInterval(size=8, uuid=uu, blocks=objs)
+                o = g.ByteInterval(size=8, uuid=uu, blocks=F(objs))
             self.adopt(n, kind, o)
             return [0]
         if c == 2:
@@ -147,15 +160,15 @@ class W:
             elif meth == "clear":
                 coll.clear()
             elif meth == "update":
-                coll.update(*lists)
+                coll.update(*[self._form(l) for l in lists])
             elif meth == "ior":
-                coll |= set(lists[0])
+                coll |= self._form(lists[0], allow_set=True)
             elif meth == "iand":
-                coll &= set(lists[0])
+                coll &= self._form(lists[0], allow_set=True)
             elif meth == "isub":
-                coll -= set(lists[0])
+                coll -= self._form(lists[0], allow_set=True)
             elif meth == "ixor":
-                coll ^= lists[0] if len(lists[0]) != len(set(map(id, lists[0]))) else set(lists[0])
+                coll ^= self._form(lists[0], allow_set=len(lists[0]) == len(set(map(id, lists[0]))))
             return [0]
         if 4 <= c <= 13:
             ir = O[it[1]]
@@ -166,9 +179,9 @@ class W:
                 ml.insert(it[2], O[it[3]])
             elif c == 6:
                 if it[-1] == "iadd":
-                    ml += [O[x] for x in it[2]]
+                    ml += self._form([O[x] for x in it[2]])
                 else:
-                    ml.extend([O[x] for x in it[2]])
+                    ml.extend(self._form([O[x] for x in it[2]]))
             elif c == 7:
                 ml.remove(O[it[2]])
             elif c == 8:
@@ -180,7 +193,7 @@ class W:
             elif c == 11:
                 ml[it[2]] = O[it[3]]
             elif c == 12:
-                ml[slice(it[2][0] if it[2] else None, it[3][0] if it[3] else None)] = [O[x] for x in it[4]]
+                ml[slice(it[2][0] if it[2] else None, it[3][0] if it[3] else None)] = self._form([O[x] for x in it[4]])
             elif c == 13:
                 ml.clear()
             return [0]
